@@ -739,7 +739,8 @@ func propLong(c LongCase, r *pbt.R) error {
 
 // TypesCase: Ops are (kind, key code) pairs: kind 0 Put(fresh value), 1 Remove, 2 Get; the key code c (0..N-1) is mapped to a
 // key of the chosen type by an order-preserving function. KT: 0 string ("k007"), 1 float64 (c/4 - 3, incl. -0.25, 0),
-// 2 uint8 (3*c), 3 string with a multi-byte prefix ("é" + ...).
+// 2 uint8 (3*c), 3 string with a multi-byte prefix ("é" + ...), 4..6 float64 keys that are consecutive representable
+// values (at 0.3, at 1e300, subnormals from zero): equality up to a tolerance would merge them.
 type TypesCase struct {
 	KT  int      `json:"kt"`
 	N   int      `json:"n"`
@@ -760,7 +761,7 @@ func runTypes[K cmp.Ordered](c TypesCase, mk func(int) K, r *pbt.R) error {
 	model := map[int]tval{}
 	ever := map[int]bool{}
 	next := 0
-	name := []string{"string", "float64", "uint8", "string with multi-byte prefix"}[c.KT]
+	name := []string{"string", "float64", "uint8", "string with multi-byte prefix", "float64 (neighbouring values at 0.3)", "float64 (neighbouring values at 1e300)", "float64 (subnormals)"}[c.KT]
 	for i, op := range c.Ops {
 		k := ((op[1] % n) + n) % n
 		switch ((op[0] % 3) + 3) % 3 {
@@ -824,7 +825,15 @@ func maxInt(a, b int) int {
 }
 
 func typesProp(c TypesCase, r *pbt.R) error {
-	switch ((c.KT % 4) + 4) % 4 {
+	switch ((c.KT % 7) + 7) % 7 {
+	case 4:
+		// consecutive representable values: 0.3, 0.1+0.2, ... are different keys
+		return runTypes(c, func(i int) float64 { return math.Float64frombits(math.Float64bits(0.3) + uint64(i)) }, r)
+	case 5:
+		return runTypes(c, func(i int) float64 { return math.Float64frombits(math.Float64bits(1e300) + uint64(i)) }, r)
+	case 6:
+		// 0, 5e-324, 1e-323, ...: zero and the smallest subnormals
+		return runTypes(c, func(i int) float64 { return math.Float64frombits(uint64(i)) }, r)
 	case 0:
 		return runTypes(c, func(i int) string { return fmt.Sprintf("k%03d", i) }, r)
 	case 1:
@@ -848,7 +857,7 @@ func typesProp(c TypesCase, r *pbt.R) error {
 }
 
 func typesGen(s pbt.Src, thorough bool) TypesCase {
-	c := TypesCase{KT: s.Intn(4), N: pbt.Pick(s, 3, 6, 20, 80)}
+	c := TypesCase{KT: s.Intn(7), N: pbt.Pick(s, 3, 6, 20, 80)}
 	if c.KT == 2 && c.N > 80 {
 		c.N = 80
 	}
@@ -897,7 +906,7 @@ func TestProp(t *testing.T) {
 		},
 		&pbt.Check[TypesCase]{
 			Name: "types",
-			Rule: "the same map semantics on other instantiations: btree.New[K, struct] with K = string (\"k007\"), float64 (c/4-3, negative, fractional and zero keys, the zero spelled -0.0 and +0.0 in turn), uint8 and strings with a multi-byte prefix; random Put/Remove/Get sequences of up to 150 (600) operations over 3..80 keys against a Go map: Get, Size, IsEmpty after every operation, ascending Traverse and the height bound at the end. Non-trivial = >= 5 distinct keys.",
+			Rule: "the same map semantics on other instantiations: btree.New[K, struct] with K = string (\"k007\"), float64 (c/4-3, negative, fractional and zero keys, the zero spelled -0.0 and +0.0 in turn; consecutive representable values at 0.3, at 1e300 and from zero up through the subnormals), uint8 and strings with a multi-byte prefix; random Put/Remove/Get sequences of up to 150 (600) operations over 3..80 keys against a Go map: Get, Size, IsEmpty after every operation, ascending Traverse and the height bound at the end. Non-trivial = >= 5 distinct keys.",
 			Gen: typesGen, Prop: typesProp, OutOfEnum: func(TypesCase, bool) bool { return true },
 			RapidQuick: 400, RapidThorough: 5000,
 		},
